@@ -38,7 +38,7 @@ func defFor(check string) *checkDef {
 			assume: commonAssume,
 			probes: []string{"same-epoch-rewrite-after-recovery", "file-merge", "in-memory-merge"}}
 	case "C15", "C15close", "C15knownV2", "C15knownStats":
-		return &checkDef{property: "C15", level: "exploration", race: true, timeout: 600 * time.Second,
+		return &checkDef{property: "C15", level: "exploration", race: true, timeout: 300 * time.Second,
 			env:      []string{"GORACE=halt_on_error=1 exitcode=66"},
 			variants: []string{"C15", "C15", "C15close", "C15", "C15knownV2", "C15", "C15close", "C15knownStats"},
 			budget:   map[string]tierCfg{"quick": {700, 80}, "thorough": {40000, 1800}},
